@@ -420,7 +420,11 @@ func (fr *Frame) applyHints(c *ssa.CallCommon, pos token.Pos, st *State, instr *
 			fr.hintApplied = map[int]bool{}
 		}
 		fr.hintApplied[i] = true
-		vc.addOblig("assert", fmt.Sprintf("%s#assert:%s@%d.%d", shortFuncName(vc.fn), hn, h.K, i+1), st, goal, pos, h.C.Text)
+		an := fmt.Sprintf("%s#assert:%s@%d.%d", shortFuncName(vc.fn), hn, h.K, i+1)
+		vc.addOblig("assert", an, st, goal, pos, h.C.Text)
+		if vc.noAssume != nil && vc.dry == 0 && vc.noAssume(an, "assert") {
+			continue // a cut that is not claimed is not assumed either
+		}
 		st.reach = vc.define("r", "Bool", and(st.reach, goal))
 	}
 }
@@ -709,9 +713,14 @@ func (fr *Frame) applyContract(callee *ssa.Function, ct *Contract, args []Val, a
 			fr.nilCheck(st, p, pos, nil2(callee.Params[0]))
 		}
 	}
+	var unclaimedPre []string // preconditions whose obligations are not claimed: the postconditions hold only under them
 	for i, c := range ct.Requires {
 		goal := fr.evalClause(env, c)
-		vc.addOblig("pre", fmt.Sprintf("%s#pre:%s@%d.%d", shortFuncName(vc.fn), short, k, i+1), st, goal, pos, c.Text)
+		on := fmt.Sprintf("%s#pre:%s@%d.%d", shortFuncName(vc.fn), short, k, i+1)
+		vc.addOblig("pre", on, st, goal, pos, c.Text)
+		if vc.noAssume != nil && vc.dry == 0 && vc.noAssume(on, "pre") {
+			unclaimedPre = append(unclaimedPre, goal)
+		}
 	}
 	if ct.Trusted {
 		vc.note("trusted contract used: " + ct.Key)
@@ -770,7 +779,13 @@ func (fr *Frame) applyContract(callee *ssa.Function, ct *Contract, args []Val, a
 	}
 	var facts []string
 	for _, c := range ct.Ensures {
-		facts = append(facts, fr.evalClause(penv, c))
+		f := fr.evalClause(penv, c)
+		if len(unclaimedPre) > 0 {
+			// a callee's postcondition is worth nothing when its precondition did not hold: where the precondition is an
+			// obligation that is not claimed (it may be false), the postcondition is assumed only under it
+			f = implies(and(unclaimedPre...), f)
+		}
+		facts = append(facts, f)
 	}
 	st.reach = vc.define("r", "Bool", and(append([]string{st.reach}, facts...)...))
 	if len(vals) == 0 {
@@ -1001,9 +1016,14 @@ func (fr *Frame) applySigContract(ct *Contract, c *ssa.CallCommon, recv Val, arg
 	}
 	vc.callCount[short]++
 	k := vc.callCount[short]
+	var unclaimedPre []string
 	for i, cl := range ct.Requires {
 		goal := fr.evalClause(env, cl)
-		vc.addOblig("pre", fmt.Sprintf("%s#pre:%s@%d.%d", shortFuncName(vc.fn), short, k, i+1), st, goal, pos, cl.Text)
+		on := fmt.Sprintf("%s#pre:%s@%d.%d", shortFuncName(vc.fn), short, k, i+1)
+		vc.addOblig("pre", on, st, goal, pos, cl.Text)
+		if vc.noAssume != nil && vc.dry == 0 && vc.noAssume(on, "pre") {
+			unclaimedPre = append(unclaimedPre, goal)
+		}
 	}
 	if base != nil {
 		vc.note("environment contract (assumed behaviour of a parameter of " + shortFuncName(vc.fn) + "): " + short)
@@ -1054,7 +1074,11 @@ func (fr *Frame) applySigContract(ct *Contract, c *ssa.CallCommon, recv Val, arg
 	}
 	var facts []string
 	for _, cl := range ct.Ensures {
-		facts = append(facts, fr.evalClause(penv, cl))
+		f := fr.evalClause(penv, cl)
+		if len(unclaimedPre) > 0 {
+			f = implies(and(unclaimedPre...), f) // see applyContract
+		}
+		facts = append(facts, f)
 	}
 	st.reach = vc.define("r", "Bool", and(append([]string{st.reach}, facts...)...))
 	if len(vals) == 0 {
